@@ -553,6 +553,8 @@ def sub_chunk(args):
                 bad = None
                 if text is None:
                     bad = 'pformat raises'
+                elif st[3] is not None or (st[4] is not None and st[4] < 1000):
+                    continue          # a depth / max_seq_len limit bites on purpose: these layouts are compared with the model only
                 else:
                     bad = oracle_eval_equal(V.strip_comments(value), text)
                     if not bad:
@@ -658,6 +660,14 @@ def calls_section(tier, seed):
     vals = [rand_call(rng) for _ in range(1200 if tier == 'quick' else 10000)]
     vals += [[c] for c in vals[:100]] + [{'k': c} for c in vals[100:200]]
     cases = [(v, settings_for(rng, v, tier)) for v in vals]
+    # arguments are printed with the caller's settings: containers longer than the default limit under max_seq_len=None (the call must
+    # still evaluate back), and short limits (compared with the model, which truncates every argument like a value printed on its own)
+    import subclasses as S
+    big = list(range(1200))
+    for v in (S.CallObj(S.Ctor, ('b', big), []), S.CallObj(S.Ctor, (), [('items', big), ('n', 1)]), S.CallObj(S.some_function, (1, {i: i for i in range(1100)}), [])):
+        cases.append((v, [(4, 79, 71, None, None, 0)]))
+    for v in vals[200:260]:
+        cases.append((v, [(4, 79, 71, None, 2, 0), (4, 30, 30, 2, 3, 0)]))
     # values containing comments cannot be compared by eval of commented CallObj args directly: strip for the oracle
     tot, nt, mism, fails = run_sub_cases([(v, s) for v, s in cases])
     stats = {'evaluations': tot, 'distinct_nontrivial': nt, 'values': len(vals), 'mismatches': len(mism),
